@@ -36,6 +36,10 @@ def base_scenarios(rng, real=False):
     for size in (10, 20):
         out.append({'min_part': 8, 'config': dict(cfg), 'transfers': [{'kind': 'copy', 'size': size}]})
     out.append({'config': dict(cfg), 'transfers': [{'kind': 'delete', 'size': 3}]})
+    # a non-seekable source that returns short bursts (a pipe, a socket): every buffer is filled by several reads, each of them a place
+    # where the stream can fail
+    for size in (10, 20):
+        out.append({'min_part': 8, 'config': dict(cfg), 'transfers': [{'kind': 'upload', 'src': 'nonseekable', 'size': size, 'src_caps': [3]}]})
     # multipart transfers of exactly ONE part (multipart_threshold <= size <= multipart_chunksize)
     cfg1 = dict(cfg, multipart_threshold=8, multipart_chunksize=16)
     for t in ({'kind': 'upload', 'src': 'path', 'size': 12}, {'kind': 'upload', 'src': 'nonseekable', 'size': 12}, {'kind': 'copy', 'size': 12},
@@ -162,6 +166,7 @@ def faults_for_key(key, bodies, upload_bodies, quick):
         out.append({'at': key, 'phase': 'before', 'kind': 'exc'})
         out.append({'at': key, 'phase': 'after', 'kind': 'exc'})
         out.append({'at': key, 'phase': 'after', 'kind': 'cancelled_exc'})
+        out.append({'at': key, 'phase': 'before', 'kind': 'oserror'})  # EIO from the pipe / socket / file behind the stream
     elif '/dst:write' in key or '/fs:write' in key:
         out.append({'at': key, 'phase': 'before', 'kind': 'oserror'})
         out.append({'at': key, 'phase': 'after', 'kind': 'oserror'})
